@@ -308,7 +308,7 @@ class Extract(Function):
         self.field = self.field.replace_table(current_table, new_table)
 
     def get_special_params_sql(self, ctx: SqlContext) -> str:
-        return "FROM {field}".format(field=self.field.get_sql(ctx))
+        return "FROM {field}".format(field=self.field.get_sql(ctx.copy(with_alias=False)))
 
 
 # Null Functions
